@@ -116,10 +116,8 @@ pub fn solve_instance(input_data: serde_json::Value) -> serde_json::Value {
     solver::verif::record_stage("transitions", &schedule_with_optimized_transitions);
 
     // reassign end depots to be consistent with transitions
-    let final_schedule = solution
-        .solution()
-        .get_schedule()
-        .reassign_end_depots_consistent_with_transitions();
+    let final_schedule =
+        schedule_with_optimized_transitions.reassign_end_depots_consistent_with_transitions();
     let final_schedule_with_info = ScheduleWithInfo::new(
         final_schedule,
         SwapInfo::NoSwap,
